@@ -145,6 +145,9 @@ func checkMapOrder(c *Ctx, rule string, fs []*ssa.Function) int {
 					}
 					if ci, ok := r.(ssa.CallInstruction); ok && sortFuncs[calleeName(ci)] && unwrap(ci.Common().Args[0]) == ssa.Value(ph) {
 						sorts = append(sorts, r)
+						if why := tieBreakingLost(ci); why != "" {
+							problems = append(problems, why+" (at "+c.W.pos(r.Pos())+")")
+						}
 						continue
 					}
 					if mi, ok := r.(*ssa.MakeInterface); ok {
@@ -154,6 +157,9 @@ func checkMapOrder(c *Ctx, rule string, fs []*ssa.Function) int {
 							if ci, ok := rr.(ssa.CallInstruction); ok && sortFuncs[calleeName(ci)] {
 								sorts = append(sorts, rr)
 								handled = true
+								if why := tieBreakingLost(ci); why != "" {
+									problems = append(problems, why+" (at "+c.W.pos(rr.Pos())+")")
+								}
 							}
 						}
 						if handled {
@@ -193,6 +199,9 @@ func checkMapOrder(c *Ctx, rule string, fs []*ssa.Function) int {
 								if ci, ok := r3.(ssa.CallInstruction); ok && sortFuncs[calleeName(ci)] {
 									sorts = append(sorts, r3)
 									isSortArg = true
+									if why := tieBreakingLost(ci); why != "" {
+										problems = append(problems, why+" (at "+c.W.pos(r3.Pos())+")")
+									}
 								}
 							}
 						}
@@ -223,4 +232,38 @@ func checkMapOrder(c *Ctx, rule string, fs []*ssa.Function) int {
 		})
 	}
 	return n
+}
+
+// tieBreakingLost: a sort with a comparison function orders the elements by a KEY of each element. If
+// that key is not unique per element (lower-cased text, trimmed text, a length), elements with equal
+// keys keep the order they arrived in - which, for a slice filled from a map range, is random.
+// Returns a description when the comparator visibly uses such a key; "" otherwise.
+func tieBreakingLost(ci ssa.CallInstruction) string {
+	args := ci.Common().Args
+	if len(args) < 2 {
+		return ""
+	}
+	fn, ok := unwrapClosure(args[1])
+	if !ok || fn.Blocks == nil {
+		return ""
+	}
+	tb := newTB(fn)
+	rets := returnsOf(fn)
+	if len(rets) != 1 || len(rets[0].Results) != 1 {
+		return ""
+	}
+	t := tb.T(rets[0].Results[0])
+	if !(t.isBin("<") || t.isBin("<=")) {
+		return ""
+	}
+	for _, side := range t.Args {
+		s := stripConv(side)
+		if s.Op == "call" {
+			switch s.Name {
+			case "strings.ToLower", "strings.ToUpper", "strings.TrimSpace", "strings.Title", "strings.ToTitle", "builtin:len", "strings.TrimLeft", "strings.TrimRight", "strings.Trim":
+				return "the slice filled in map order is sorted by " + s.Name + "(element), which is equal for distinct elements (e.g. keys differing only in case): their relative order is the map's random iteration order, so the output differs between two writes of the same data"
+			}
+		}
+	}
+	return ""
 }
